@@ -536,6 +536,8 @@ class ArgumentParser(ParserDeprecations, ActionsContainer, ArgumentLinking, argp
             cfg = self._apply_actions(cfg)
             if isinstance(cfg_obj, Namespace):
                 cfg_obj = cfg_obj.clone()
+            elif isinstance(cfg_obj, dict):  # (a dict may hold namespaces of the caller, e.g. for a group of nested arguments)
+                cfg_obj = {k: v.clone() if isinstance(v, Namespace) else v for k, v in cfg_obj.items()}
             cfg_apply = self._apply_actions(cfg_obj, prev_cfg=cfg)
             cfg = self.merge_config(cfg_apply, cfg)
 
